@@ -421,6 +421,19 @@ func (g *Graph) isSuccessReturn(id int) bool {
 	if id, ok := lastE.(*ast.Ident); ok && id.Name == "nil" {
 		return true
 	}
+	// a package-level error variable is a sentinel (ErrNotFound, io.EOF): never nil
+	{
+		var o types.Object
+		switch x := lastE.(type) {
+		case *ast.Ident:
+			o = g.F.Info().Uses[x]
+		case *ast.SelectorExpr:
+			o = g.F.Info().Uses[x.Sel]
+		}
+		if v, ok := o.(*types.Var); ok && !v.IsField() && v.Pkg() != nil && v.Parent() == v.Pkg().Scope() {
+			return false
+		}
+	}
 	// An error-typed variable or call: may be nil, so conservatively this may
 	// be a success return — except when the operand is a freshly constructed
 	// error (fmt.Errorf, errors.New, &T{...}) which is never nil.
